@@ -696,7 +696,8 @@ struct Life
       if(o > 0)
       {
         std::unique_ptr<ObjBase> fresh = make_obj<DT, IT>(pobj(o)["c"], true);
-        fresh->restore_reg(cp, id, false);
+        try { fresh->restore_reg(cp, id, false); }
+        catch(const std::exception& e) { return k.fail(tag + ": restore_object('" + id + "') of an identifier of the LAST loaded checkpoint ended with the exception " + e.what()); }
         bool ex = true; vj::Value got = fresh->state(ex);
         if(!ex || got != pobj(o)["arrays"]) return k.fail(tag + ": object restored for identifier '" + id + "' is " + js(got) + " expected " + js(pobj(o)["arrays"]) + " (what the LAST loaded checkpoint holds)");
       }
@@ -776,7 +777,8 @@ struct Life
         const long long want = o["res"].as_int(); const bool add = o["add"].as_bool();
         if(want < 1) return k.fail(tag + ": the specification does not define this restore");
         std::unique_ptr<ObjBase> fresh = make_obj<DT, IT>(pobj(want)["c"], true);
-        fresh->restore_reg(cp, idof(i), add);
+        try { fresh->restore_reg(cp, idof(i), add); }
+        catch(const std::exception& e) { return k.fail(tag + ": restore_object('" + idof(i) + "') of an identifier of the LAST loaded checkpoint ended with the exception " + e.what()); }
         bool ex = true; vj::Value got = fresh->state(ex);
         if(!ex || got != pobj(want)["arrays"]) return k.fail(tag + ": object restored for identifier '" + idof(i) + "' is " + js(got) + " expected " + js(pobj(want)["arrays"]) + " (what the LAST loaded checkpoint holds)");
         if(add) regobj[i] = std::move(fresh);
